@@ -1,6 +1,7 @@
 package families
 
 import (
+	"strings"
 	"fmt"
 
 	"verif/mc/clustermc"
@@ -175,7 +176,18 @@ func extScenarios(tier string) []clustermc.Scenario {
 func C01() *clustermc.Family {
 	return &clustermc.Family{
 		Property:  "C01",
-		Scenarios: func(tier string) []clustermc.Scenario { return append(capScenarios(tier), extScenarios(tier)...) },
+		Scenarios: func(tier string) []clustermc.Scenario {
+			out := append(capScenarios(tier), extScenarios(tier)...)
+			// fractional capacity that is only terminating must not be handed to a bind either: the share
+			// grammar's worlds with a terminating sharer, judged by the per-device clauses as well
+			for _, sc := range shareScenarios(tier) {
+				if strings.Contains(sc.Name, "term-") {
+					sc.Name = "share:" + sc.Name
+					out = append(out, sc)
+				}
+			}
+			return out
+		},
 		Depth: func(tier string) int {
 			if tier == "thorough" {
 				return 4
@@ -189,6 +201,6 @@ func C01() *clustermc.Family {
 			return 1
 		},
 		Env:     clustermc.EnvOpts{BindOK: true, Terminate: true},
-		Oracles: []clustermc.Oracle{oracle.CapacityOracle("C01")},
+		Oracles: []clustermc.Oracle{oracle.CapacityOracle("C01", "C02")},
 	}
 }
